@@ -354,14 +354,20 @@ async fn pause(ctx: &Ctx) {
 
 /// Harness-level schedule point: called with the 1-based node when an
 /// executor starts and after each of its sequential dependency reads
-/// (conc_sched blocks here until the schedule lets the task go on).
-pub type ExecPoint = Arc<dyn Fn(usize) + Send + Sync>;
+/// (conc_sched blocks here until the schedule lets the task go on).  The
+/// callback returns what the executor has to do next: 0 = go on, 1 = panic,
+/// 2 = suspend for ever (the caller is going to drop the request).
+pub type ExecPoint = Arc<dyn Fn(usize) -> u8 + Send + Sync>;
 pub static EXEC_POINT: parking_lot::RwLock<Option<ExecPoint>> = parking_lot::RwLock::new(None);
 
-fn exec_point(n1: usize) {
+async fn exec_point(n1: usize) {
     let h = EXEC_POINT.read().clone();
     if let Some(h) = h {
-        h(n1);
+        match h(n1) {
+            1 => panic!("vh: injected executor panic (schedule) at node {n1}"),
+            2 => std::future::pending::<()>().await,
+            _ => {}
+        }
     }
 }
 
@@ -373,7 +379,7 @@ pub async fn run_node<C: Config>(ctx: &Ctx, engine: &TrackedEngine<C>, n: usize)
     if ctx.panic_node.load(Ordering::SeqCst) == n as i64 {
         panic!("vh: injected executor panic at node {}", n + 1);
     }
-    exec_point(n + 1);
+    exec_point(n + 1).await;
 
     let node = &ctx.prog.nodes[n];
     let out = if node.kind == Kind::Ex {
@@ -408,7 +414,7 @@ pub async fn run_node<C: Config>(ctx: &Ctx, engine: &TrackedEngine<C>, n: usize)
                         guard.reads.lock().push((*d, v));
                         acc = ctx.prog.step(it, i, acc, v);
                         pause(ctx).await;
-                        exec_point(n + 1);
+                        exec_point(n + 1).await;
                     }
                 }
             }
